@@ -161,6 +161,7 @@ func runLaws(run *ev.Run) {
 	timed("nep2", func() { nep2Family(run, ev.Pick(600, 20000), ev.Pick(6, 48)) })
 	timed("base58check", func() { b58Family(run, ev.Pick(8000, 300000)) })
 	timed("address", func() { addrFamily(run, ev.Pick(3000, 100000)) })
+	timed("address-prefix", func() { addrPrefixFamily(run, ev.Pick(300, 10000)) })
 	timed("uint", func() { uintFamily(run, ev.Pick(4000, 100000)) })
 	timed("fixed", func() { fixedFamily(run, ev.Pick(8000, 300000)) })
 	timed("vmint", func() { bigintFamily(run, ev.Pick(12000, 400000)) })
